@@ -25,7 +25,7 @@ first_caught = sum(1 for i in ids if first.get(i) == 1)
 table = subprocess.run([sys.executable, os.path.join(ROOT, "tools", "gen_seeded_table.py")], capture_output=True, text=True).stdout
 header = """### 7.1 Seeded changes and which checks catch them
 
-%d seeded changes (10 rounds; 2 per property and round, 29 in the ninth; the tenth is a short time-boxed round with one change for each of twelve properties, brief in `notes/agent_prompts/round10_C05.txt`), all confirmed as described above.  Columns: the
+%d seeded changes (10 rounds; 2 per property and round, 29 in the ninth; the tenth is a short time-boxed round with one change for each of fourteen properties, brief in `notes/agent_prompts/round10_C05.txt`), all confirmed as described above.  Columns: the
 result of the property's quick check on the FIRST run against the change - with the harness as it was committed
 before the round's changes had been looked at (round 1: before any seeded change had been seen; rounds 3-10:
 measured by running that commit's `check`; logs `notes/seeded_round<N>_harness_before_round<N>.log`, collected in
